@@ -3,11 +3,36 @@
 import json, os
 V = os.path.dirname(os.path.dirname(os.path.abspath(__file__)))
 
+L1NOTE = "Trusted: TLC; the in-binary libc interposer; parse.rs (decodes the pinned layout, judges nothing); the placement of the add-only hook points; bounded model constants (see evidence)."
 CLAIMED = {
  "C01": dict(cat="model_checking", ref="DESIGN.md 6 (C01), 3.1, 4.4",
-   text="L0 reference semantics (KVOps/KVStore.tla) model-checked by TLC; TLC-enumerated behaviours (every function Active -> initial kind x action x ending, over tree-shape profiles) replayed on the real code with every result compared, and seeded random histories of the real code trace-validated by TLC against the same specification.",
+   text="L0 reference semantics (KVOps/KVStore.tla) model-checked by TLC; TLC-enumerated behaviours (every function Active -> initial kind x action x ending, over tree-shape profiles incl. dirty nested buckets below merging interior nodes and multi-extension growth) replayed on the real code with every result compared, and seeded random histories of the real code trace-validated by TLC against the same specification.",
    note="Trusted: TLC, harness projection (exec.rs), the correspondence Do <-> public API; bounded key universes (<= 48 keys per bucket, depth <= 3).",
    tech="TLA+ L0 spec + TLC; spec->impl behaviour replay and impl->spec trace validation"),
+ "C02": dict(cat="model_checking", ref="DESIGN.md 6 (C02), 3.2, 4.6",
+   text="PageStore.tla (commit protocol, cache vs disk, Kill, PowerLoss over every subset of unsynced writes with tears) model-checked: AllImagesRecoverable / AfterCrash / durability hold for the protocol as repaired and fail for the pinned order (vacuity guard). Recorded commits of the real code are validated against the protocol (Trace_Page) and Gen_Crash enables Kill/PowerLoss at every position of the recorded write sequence; every abstract recipe is concretised (sector and word tears) and reopened by the real code: exactly pre or post, DB::check ok, further commit works.",
+   note=L1NOTE + " Power-loss model as in the property text.", tech="TLA+ L1 spec + TLC; trace validation of the commit protocol; TLC-generated crash recipes replayed as file images"),
+ "C03": dict(cat="model_checking", ref="DESIGN.md 6 (C03)",
+   text="PageStore readers configuration model-checked (ReaderPinned, ReaderIntact); Gen_Readers enumerates every single-threaded interleaving of opening/closing up to k readers with committing / rolling-back writers, replayed on the real code with every open reader re-read in full after every step; release bounds / allocations / overwrites of the same runs and of random multi-reader histories validated by Trace_Page against the readers that are really open.",
+   note=L1NOTE, tech="TLA+ L0+L1 specs + TLC; exhaustive interleaving replay; trace validation"),
+ "C05": dict(cat="model_checking", ref="DESIGN.md 6 (C05), 4.3",
+   text="Every page image the library writes is decoded by an independent parser and TLC (Trace_Page) evaluates the structural and accounting predicates at every header write, cross-checks the final file, and DB::check() must agree; histories are TLC-generated (nested bucket deletions at several levels in one transaction, merges/splits on three-level trees) and random.",
+   note=L1NOTE, tech="TLA+ predicates over decoded pages evaluated by TLC on recorded executions"),
+ "C07": dict(cat="model_checking", ref="DESIGN.md 6 (C07)",
+   text="L0 transaction view: the full read API (get, scan, seek, re-seek, ranges, buckets, kv_pairs, counter, after-the-end probe) is issued after every single operation of a write transaction, in TLC-generated behaviours over tree-shape profiles and in random traces, and compared with KVOps!Do on the transaction's own view.",
+   note="Trusted: TLC, exec.rs projection.", tech="TLA+ L0 spec + TLC; behaviour replay with read-back after every op; trace validation"),
+ "C08": dict(cat="model_checking", ref="DESIGN.md 6 (C08)",
+   text="Cursor sub-machine of L0 (SeekResults allows either neighbour for an absent key; ranges for all bound kinds; filters; next() after exhaustion) model-checked (SeekSound, AllSorted) and bound by TLC-generated exhaustive query sets: every seek / re-seek key and every pair of bounds over the universe on empty, single-leaf, two- and three-level buckets, committed and mid-transaction.",
+   note="Trusted: TLC, exec.rs projection.", tech="TLA+ L0 spec + TLC; exhaustive query generation replayed on the real code"),
+ "C10": dict(cat="model_checking", ref="DESIGN.md 6 (C10)",
+   text="PageStore readers+crash configurations model-checked (Accounting, FLConsistent incl. Reopen/Recover; Release constrained by MustReleaseOK/ReleaseBoundOK; extension only without a fitting free run). Long cyclic workloads of the real code are validated step by step by Trace_Page (alloc / free / release / publish / header events) with growth gates at cycle markers; shorter decoded runs give exact per-commit accounting.",
+   note=L1NOTE + " Growth gates are generous multiples; the exact step rules carry the claim.", tech="TLA+ L1 rules checked by TLC on long recorded runs"),
+ "C11": dict(cat="fault_enumeration", ref="DESIGN.md 6 (C11)",
+   text="PageStore with FailIO actions model-checked (FLConsistent, Accounting, CacheRecoverable; the variant that does not re-publish violates FLConsistent: vacuity guard). For every interposed write/fsync of every commit of recorded histories, the history is re-run with that call failing (error; short write then error; extension refused by RLIMIT_FSIZE): commit must return Io, the handle shows exactly pre or post, DB::check ok, further transactions commit, again after reopen; all runs trace-validated by Trace_Page.",
+   note=L1NOTE + " Single faults; faults injected at the libc boundary.", tech="TLA+ L1 spec with fault actions + TLC; exhaustive single-fault injection on the real code"),
+ "C12": dict(cat="model_checking", ref="DESIGN.md 6 (C12)",
+   text="PageStore with Damage(slot) at quiescent points model-checked (FallbackIntact, AfterCrash). Gen_Damage enables Damage for each slot after open and after every acknowledged commit of recorded executions; each recipe is concretised as every single-byte change at every offset of the header page (several masks), zeroing, all-ones, random overwrites; the real code must open and show the other header's commit (either, where the pinned layout neither hashes nor reads the byte), pass DB::check and commit again.",
+   note=L1NOTE, tech="TLA+ L1 spec + TLC; TLC-generated damage recipes concretised exhaustively per byte"),
 }
 
 NOT_YET = "check not built yet in this revision of the framework (see DESIGN.md 9 for the construction order)"
